@@ -72,10 +72,30 @@ theorem send_error_closes (fuel : Nat) (rest : List SendRes) (s : State) (id : N
     sendLoop (fuel + 1) (.error :: rest) s id = (closeSocket s, rest, .closed) := by
   simp [sendLoop, h]
 
+/-- **Send side, any schedule**: whatever sequence of partial sends and would-blocks the socket
+answers with, the send loop — unless it closes the connection — puts exactly the next `k`
+unsent octets of the head request on the wire, contiguously and in order, and advances the
+request's sent count by `k`; the request's octets are untouched. -/
+theorem sendLoop_writes_contiguous (fuel : Nat) (sends : List SendRes) (s : State) (id : Nat)
+    (hid : id < s.reqs.length) (hnc : (sendLoop fuel sends s id).2.2 ≠ .closed) :
+    ∃ k, ((sendLoop fuel sends s id).1.getReq id).sent = (s.getReq id).sent + k ∧
+      ((sendLoop fuel sends s id).1.getReq id).raw = (s.getReq id).raw ∧
+      (sendLoop fuel sends s id).1.conns.flatten =
+        s.conns.flatten ++ ((s.getReq id).raw.drop (s.getReq id).sent).take k ∧
+      (sendLoop fuel sends s id).1.reqs.length = s.reqs.length :=
+  sendLoop_contiguous fuel sends s id hid hnc
+
 /-! Non-vacuity: three PDUs, two chunkings. -/
 example : Tlv.memRead [1, 1, 0xaa, 2, 0] = .ok ⟨1, false, false, 2, 1⟩ ∧ ([1, 1, 0xaa, 2, 0] : Bytes).isEmpty = false :=
   ⟨rfl, rfl⟩
 example : ([[1, 1], [0xaa, 2], [0]] : List Bytes).flatten = ([[1], [1, 0xaa, 2, 0]] : List Bytes).flatten := rfl
 example : (extract [0x81, 0x00, 0x00]).2.length < MAX := (inbuf_bound _).1
+
+/-- a five-octet request, two octets accepted, then would-block: the hypotheses of
+`sendLoop_writes_contiguous` hold with `k = 2` -/
+example : ((sendLoop 10 [.accept 2, .wouldBlock] (enqueue {} [1, 2, 3, 4, 5] 0) 0).1.getReq 0).sent = 2 ∧
+    (sendLoop 10 [.accept 2, .wouldBlock] (enqueue {} [1, 2, 3, 4, 5] 0) 0).1.conns = [[1, 2]] ∧
+    (sendLoop 10 [.accept 2, .wouldBlock] (enqueue {} [1, 2, 3, 4, 5] 0) 0).2.2 = .blocked ∧
+    0 < (enqueue {} [1, 2, 3, 4, 5] 0).reqs.length := by decide
 
 end KsiVerif.Props.C14
